@@ -540,8 +540,12 @@ def nested_uses_section(chk):
             stats = it.call(VS, [{"before": "ASSIGNED-BEFORE"}, {}], {})
             vis = SObj(VV, {"stats": stats, "bb": None})
             if meth == "visit_NestedFunctionDef":
-                args = SObj(ClassVal("arguments", builtin=True), {"args": [SObj(ClassVal("arg", builtin=True), {"arg": "p"})]})
-                node = SObj(ClassVal("NestedFunctionDef", builtin=True), {"cfg": cfg, "name": "inner", "args": args})
+                # a real function node: `inner(p)` contains a deeper function whose PARAMETER is named like the
+                # outer variable `outer` that inner itself reads — only inner's own parameters may be subtracted
+                from .common import ast_from_source
+                fd = ast_from_source(it, "def inner(p):\n    def deep(outer, dead_only=1):\n        return outer\n    return outer + p\n").fields["body"][0]
+                NFD = it.lookup_global(e.module("guppylang_internals.nodes"), "NestedFunctionDef")
+                node = SObj(NFD, dict(fd.fields, cfg=cfg))
             else:
                 node = SObj(ClassVal("ModifiedBlock", builtin=True), {"cfg": cfg, "control": [], "power": []})
             f, _ = VV.lookup(meth)
